@@ -486,6 +486,10 @@ def src_report(rep, c, r):
     return 1
 
 
+SRC_ACTIONS = ["Stmt", "Assign", "Continue", "Open", "Hash", "EndLine", "Semi", "StrText", "StrChar",
+               "Close", "Adjacent", "CmtText", "CmtChar"]
+
+
 def part_c(tier, seed, rng, rep, cov, jobs, tj):
     quick = tier == "quick"
     wd = core.subdir("c46")
@@ -496,8 +500,7 @@ def part_c(tier, seed, rng, rep, cov, jobs, tj):
 
     def finish():
         forms, lex, sim = tj.get("forms"), tj.get("lex"), tj.get("ssim")
-        _need_actions([forms, lex], ["Stmt", "Assign", "Continue", "Open", "Hash", "EndLine", "Semi", "StrText", "StrChar",
-                                     "Close", "Adjacent", "CmtText", "CmtChar"], "DepTreeSrc")
+        _need_actions([forms, lex], SRC_ACTIONS, "DepTreeSrc")
         cov["tlc"].append(dict(forms.summary(), config="DepTreeSrc forms: all 13 statement forms, both locations, <= 6 atoms, statements only"))
         cov["tlc"].append(dict(lex.summary(), config="DepTreeSrc lex: prefixes {'',r,f,b}, 2 real + 2 decoy forms, all programs of <= %d atoms" % (5 if quick else 6)))
         cov["tlc"].append(dict(sim.summary(), config="DepTreeSrc -simulate: all forms / prefixes / locations, programs of ~30 atoms"))
@@ -579,8 +582,7 @@ def part_c(tier, seed, rng, rep, cov, jobs, tj):
             "samples": [{"part": "src", "loc": c["loc"], "text": c["text"], "reals": c["reals"]}
                         for c in core.sample([c for c in cases if c["reals"] and c["nd"] > 0 and c["src"] == "sim"], 1, rng)],
             "states": forms.generated + lex.generated + sim.generated, "distinct": forms.distinct + lex.distinct,
-            "action_coverage": {k: forms.coverage.get(k, (0, 0))[1] + lex.coverage.get(k, (0, 0))[1]
-                                for k in set(forms.coverage) | set(lex.coverage) if k[0].isupper() and k != "Init"},
+            "action_coverage": {k: forms.coverage.get(k, (0, 0))[1] + lex.coverage.get(k, (0, 0))[1] for k in SRC_ACTIONS},
         }
     return finish
 
@@ -595,15 +597,21 @@ def run(tier, seed):
     jobs = 8
     tj = TLCJobs(5 if tier == "quick" else 3)
     # the long simulations first, then the model-checking runs; bindings as the results arrive
-    fb = part_b(tier, seed, random.Random(seed * 3 + 2), rep, cov, jobs, tj)
-    fc = part_c(tier, seed, random.Random(seed * 3 + 3), rep, cov, jobs, tj)
-    fa = part_a(tier, seed, random.Random(seed * 3 + 1), rep, cov, jobs, tj)
+    parts = os.environ.get("C46_PARTS", "abc")     # debugging aid: run only some parts (exit code 2 then)
+    empty = lambda: {"nontrivial": 0, "samples": [], "states": 0, "distinct": 0}  # noqa
+    fb = part_b(tier, seed, random.Random(seed * 3 + 2), rep, cov, jobs, tj) if "b" in parts else empty
+    fc = part_c(tier, seed, random.Random(seed * 3 + 3), rep, cov, jobs, tj) if "c" in parts else empty
+    fa = part_a(tier, seed, random.Random(seed * 3 + 1), rep, cov, jobs, tj) if "a" in parts else empty
     b = fb()
     _log("part B done")
     c = fc()
     _log("part C done")
     a = fa()
     _log("part A done")
+    if parts != "abc":
+        rc = rep.finish()
+        print("partial run (%s): rc would be %d" % (parts, rc))
+        core.die("partial run requested through C46_PARTS")
     n_eval = a["memo_cases_fake"] + a["memo_cases_realfiles"] + a["sweep4_cases"] + b["build_histories"] + c["src_cases"]
     cov.update({
         "states": a["states"] + b["states"] + c["states"],
